@@ -109,8 +109,86 @@ pub fn dbl(a: &Pt) -> Pt {
     add(a, a)
 }
 
-/// [k]P by left-to-right double-and-add; k may be any non-negative integer.
+// Homogeneous projective arithmetic (X:Y:Z), y^2 z = x^3 + a x z^2 + b z^3, textbook formulas
+// (EFD add-1998-cmo-2 / dbl-2007-bl). Only used to make scalar multiplication ~7x faster; `mul_affine`
+// stays the anchor and the self-test compares the two on every run.
+type Pj = (BigUint, BigUint, BigUint);
+
+fn pj_dbl(p1: &Pj) -> Pj {
+    let c = curve();
+    let m = &c.p;
+    if p1.2.is_zero() || p1.1.is_zero() {
+        return (BigUint::zero(), BigUint::one(), BigUint::zero());
+    }
+    let (x1, y1, z1) = p1;
+    let xx = (x1 * x1) % m;
+    let zz = (z1 * z1) % m;
+    let w = (&c.a * &zz + &xx * 3u32) % m;
+    let s = (y1 * z1 * 2u32) % m;
+    let ss = (&s * &s) % m;
+    let sss = (&s * &ss) % m;
+    let r = (y1 * &s) % m;
+    let rr = (&r * &r) % m;
+    let xr = (x1 + &r) % m;
+    let b = sub_mod(&sub_mod(&(&xr * &xr), &xx, m), &rr, m);
+    let h = sub_mod(&(&w * &w), &(&b * 2u32), m);
+    let x3 = (&h * &s) % m;
+    let y3 = sub_mod(&(&w * sub_mod(&b, &h, m)), &(&rr * 2u32), m);
+    (x3, y3, sss)
+}
+
+fn pj_add(p1: &Pj, p2: &Pj) -> Pj {
+    let m = &curve().p;
+    if p1.2.is_zero() {
+        return p2.clone();
+    }
+    if p2.2.is_zero() {
+        return p1.clone();
+    }
+    let (x1, y1, z1) = p1;
+    let (x2, y2, z2) = p2;
+    let y1z2 = (y1 * z2) % m;
+    let x1z2 = (x1 * z2) % m;
+    let z1z2 = (z1 * z2) % m;
+    let u = sub_mod(&(y2 * z1), &y1z2, m);
+    let v = sub_mod(&(x2 * z1), &x1z2, m);
+    if v.is_zero() {
+        return if u.is_zero() { pj_dbl(p1) } else { (BigUint::zero(), BigUint::one(), BigUint::zero()) };
+    }
+    let uu = (&u * &u) % m;
+    let vv = (&v * &v) % m;
+    let vvv = (&v * &vv) % m;
+    let r = (&vv * &x1z2) % m;
+    let a = sub_mod(&sub_mod(&(&uu * &z1z2), &vvv, m), &(&r * 2u32), m);
+    let x3 = (&v * &a) % m;
+    let y3 = sub_mod(&(&u * sub_mod(&r, &a, m)), &(&vvv * &y1z2), m);
+    let z3 = (&vvv * &z1z2) % m;
+    (x3, y3, z3)
+}
+
+/// [k]P; k may be any non-negative integer. Projective double-and-add, result converted to affine.
 pub fn mul(k: &BigUint, a: &Pt) -> Pt {
+    let m = &curve().p;
+    let base: Pj = match a {
+        None => return None,
+        Some((x, y)) => (x.clone(), y.clone(), BigUint::one()),
+    };
+    let mut r: Pj = (BigUint::zero(), BigUint::one(), BigUint::zero());
+    for i in (0..k.bits()).rev() {
+        r = pj_dbl(&r);
+        if k.bit(i) {
+            r = pj_add(&r, &base);
+        }
+    }
+    if r.2.is_zero() {
+        return None;
+    }
+    let zi = r.2.modinv(m).unwrap();
+    Some(((&r.0 * &zi) % m, (&r.1 * &zi) % m))
+}
+
+/// [k]P by left-to-right double-and-add in affine coordinates (the anchor for `mul`).
+pub fn mul_affine(k: &BigUint, a: &Pt) -> Pt {
     let mut r: Pt = None;
     let bits = k.bits();
     for i in (0..bits).rev() {
@@ -496,6 +574,15 @@ pub fn selftest() -> Vec<(String, bool)> {
         _ => false,
     };
     r.push(("GM/T 0003.5 key agreement example (K, S_B, S_A)".to_string(), okx));
+    // projective scalar multiplication == affine double-and-add (also on an off-curve point: a-only formulas)
+    let mut okm = true;
+    for (i, kk) in [BigUint::one(), BigUint::from(2u32), BigUint::from(3u32), &c.n - 1u32, c.n.clone(), &c.n + 26u32, k.clone(), d.clone()].iter().enumerate() {
+        let base = if i % 2 == 0 { g() } else { Some(pk.clone()) };
+        okm &= mul(kk, &base) == mul_affine(kk, &base);
+    }
+    let off = Some((c.gx.clone(), (&c.gy + 1u32) % &c.p));
+    okm &= mul(&k, &off) == mul_affine(&k, &off);
+    r.push(("projective scalar multiplication == affine double-and-add".to_string(), okm));
     // point codec
     let enc = encode(&pk, true);
     r.push(("SEC1 compressed round trip".to_string(), decode(&enc) == Some(pk.clone()) && decode(&encode(&pk, false)) == Some(pk.clone())));
